@@ -390,17 +390,28 @@ inductive OrdRes (σ : Type) where
   | failed                       -- returned false: a whole batch of wrapped calls failed
   | starved                      -- the `while (!found)` loop did not finish within the supplied batches
 
-/-- `OrderedInfSampler::sampleUniform(statePtr, maxCost)` on an empty queue, as fixed by 4bc34ddf9
-(finding F35), given the successive batches the wrapped sampler would produce: `createBatch` keeps a
-sample only if the wrapped `sampleUniform` returned true; an empty queue after `createBatch` returns
-false; a top that fails the cost test clears the batch and loops. -/
+/-- `OrderedInfSampler::sampleUniform(statePtr, maxCost)` on an empty queue, as fixed by 4bc34ddf9 (F35) and
+d1f394c05 (F144), given the batches the wrapped sampler would produce: `createBatch` keeps a sample only if the
+wrapped `sampleUniform` returned true; an empty queue after `createBatch` returns false; a top that fails the cost test
+clears the batch and — the batch being fresh, created by this very call for this `maxCost` — returns false (only the
+first supplied batch is ever used). -/
 def orderedSample (h : σ → α) (c : α) : List (List (Wrapped σ)) → OrdRes σ
+  | [] => .starved
+  | b :: _ =>
+    let q := (b.filter (·.1)).map (·.2)
+    match argBest h q with
+    | none => .failed
+    | some t => if h t < c then .found t q else .failed
+
+/-- the same BEFORE d1f394c05 (F144): a top that fails the cost test cleared the batch and LOOPED to draw another one —
+for ever when no sample can beat `maxCost`.  Kept for `ordered_old_loops`. -/
+def orderedSampleLoop (h : σ → α) (c : α) : List (List (Wrapped σ)) → OrdRes σ
   | [] => .starved
   | b :: bs =>
     let q := (b.filter (·.1)).map (·.2)
     match argBest h q with
     | none => .failed
-    | some t => if h t < c then .found t q else orderedSample h c bs
+    | some t => if h t < c then .found t q else orderedSampleLoop h c bs
 
 /-- `OrderedInfSampler::sampleUniform` BEFORE the fix (F35): `createBatch` IGNORED the wrapped flag and
 there was no failure return.  `none`: the loop did not finish within the supplied batches.  Kept for
@@ -428,10 +439,33 @@ inductive OrdOut (σ S : Type) where
   | failed (s : S)                        -- returned false: a whole batch of wrapped calls failed
   | starved                               -- fuel / draws ran out
 
-/-- `OrderedInfSampler::sampleUniform(statePtr, maxCost)` (fixed code) as a state machine over its queue `q` and the
-wrapped sampler's state `s`; `mk s` is `createBatch`: `batchSize_` wrapped calls, each `(flag, state)`.
-`while (!found) { if (empty) { createBatch; if (empty) return false; } if (h(top) < maxCost) { pop; return true; } else clearBatch; }` -/
-def orderedRun {S : Type} (h : σ → α) (c : α) (mk : S → Option (List (Wrapped σ) × S)) :
+/-- `createBatch(maxCost)` then the first pass of the loop with `freshBatch = true`: empty queue → false; best below the
+bound → pop and true; else `clearBatch()` and, the batch being fresh, false. -/
+def orderedFresh {S : Type} (h : σ → α) (c : α) (mk : S → Option (List (Wrapped σ) × S)) (s : S) : OrdOut σ S :=
+  match mk s with
+  | none => .starved
+  | some (b, s') =>
+    match popBest h ((b.filter (·.1)).map (·.2)) with
+    | none => .failed s'
+    | some (t, rest) => if h t < c then .found t rest s' else .failed s'
+
+/-- `OrderedInfSampler::sampleUniform(statePtr, maxCost)` as fixed by 4bc34ddf9 (F35) and d1f394c05 (F144), a state
+machine over its queue `q` and the wrapped sampler's state `s`; `mk s` is `createBatch`: `batchSize_` wrapped calls.
+```
+freshBatch = false;
+while (!found) { if (empty) { createBatch; freshBatch = true; if (empty) return false; }
+                 if (h(top) < maxCost) { pop; return true; } else { clearBatch; if (freshBatch) return false; } }
+```
+A queued (stale) batch whose best fails the bound is cleared and ONE fresh batch is drawn; the loop needs no fuel. -/
+def orderedRun {S : Type} (h : σ → α) (c : α) (mk : S → Option (List (Wrapped σ) × S)) (q : List σ) (s : S) :
+    OrdOut σ S :=
+  match popBest h q with
+  | none => orderedFresh h c mk s
+  | some (t, rest) => if h t < c then .found t rest s else orderedFresh h c mk s
+
+/-- the loop BEFORE d1f394c05 (F144): no `freshBatch`; a failing top clears the batch and loops.  `fuel` bounds the
+number of loop passes the model follows; `.starved` = still looping after `fuel` passes. -/
+def orderedRunOld {S : Type} (h : σ → α) (c : α) (mk : S → Option (List (Wrapped σ) × S)) :
     Nat → List σ → S → OrdOut σ S
   | 0, _, _ => .starved
   | fuel + 1, q, s =>
@@ -442,10 +476,10 @@ def orderedRun {S : Type} (h : σ → α) (c : α) (mk : S → Option (List (Wra
       | some (b, s') =>
         match popBest h ((b.filter (·.1)).map (·.2)) with
         | none => .failed s'
-        | some (t, rest) => if h t < c then .found t rest s' else orderedRun h c mk fuel [] s'
+        | some (t, rest) => if h t < c then .found t rest s' else orderedRunOld h c mk fuel [] s'
     | _ :: _ =>
       match popBest h q with
       | none => .starved
-      | some (t, rest) => if h t < c then .found t rest s else orderedRun h c mk fuel [] s
+      | some (t, rest) => if h t < c then .found t rest s else orderedRunOld h c mk fuel [] s
 
 end OmplModel.Phs
